@@ -144,6 +144,7 @@ def gen(ctx, seed, tier):
             seen.add(c)
             out.append(c)
     # the build without copy_file_range(): the fault-free cases again (spec only)
+    nocfr = ["~ " + c for c in out if c.startswith("K ") and c.split()[10] == "-"][:(400 if thorough else 120)]
     # the same calls in a process whose descriptor 0 is closed (the source, or the destination, becomes descriptor 0)
     def z(c):
         t = c.split()
@@ -152,7 +153,7 @@ def gen(ctx, seed, tier):
     zs = [c for c in out if c.startswith("K ")]
     out += [z(c) for c in zs if c.split()[10] == "-"][:(300 if thorough else 100)]
     out += [z(c) for c in r.sample(zs, min(len(zs), 1500 if thorough else 300))]
-    out += ["~ " + c for c in out if c.startswith("K ") and c.split()[10] == "-"][:(400 if thorough else 120)]
+    out += nocfr
     return out
 
 
@@ -182,7 +183,13 @@ def run_model(ctx, cases):
     conv = []
     for c in cases:
         if c.startswith("~ "):
-            conv.append(c[2:])          # fault-free case: the observable part does not depend on which path copies
+            t = c[2:].split()           # fault-free case: the observable part does not depend on which path copies
+            t[9] = t[9].lstrip("z")
+            if t[1] == "I":
+                t[1] = "O"
+            if t[5] not in ("0", "1"):
+                t[5] = "0"
+            conv.append(" ".join(t))
         elif c.startswith("X "):
             t = c.split()
             info = dict(kv.split("=") for kv in getattr(ctx, "c14_x", {}).get(c, "xfs=0 cfr=0 bs=4096").split())
